@@ -214,6 +214,30 @@ func (s *Sim) randomEvent(fifo int) {
 			return
 		}
 	case 3:
+		if s.rng.Intn(10) == 0 {
+			// several entries in one proposal message, membership changes among them
+			id := s.pick(up)
+			n := 2 + s.rng.Intn(2)
+			var ents []pb.Entry
+			for i := 0; i < n; i++ {
+				switch s.rng.Intn(4) {
+				case 0:
+					c := s.randomSingle(&s.nodes[id].disk.cs)
+					if e, ok := confEntry(pb.ConfChange{Type: c.Type, NodeID: c.NodeID}); ok {
+						ents = append(ents, e)
+					}
+				case 1:
+					c := s.randomSingle(&s.nodes[id].disk.cs)
+					if e, ok := confEntry(pb.ConfChangeV2{Changes: []pb.ConfChangeSingle{c}}); ok {
+						ents = append(ents, e)
+					}
+				default:
+					ents = append(ents, pb.Entry{Data: s.payload()})
+				}
+			}
+			s.doProposeBatch(id, ents)
+			return
+		}
 		s.doPropose(s.pick(up))
 		return
 	case 4, 22:
